@@ -584,6 +584,12 @@ class EveryNTimesteps(EventCallback):
         self.n_steps = n_steps
         self.last_time_trigger = 0
 
+    def _on_training_start(self) -> None:
+        # The timestep counter may have been reset by ``learn(reset_num_timesteps=True)``:
+        # re-arm the trigger, otherwise it would stay silent until the old count is reached again
+        self.last_time_trigger = min(self.last_time_trigger, self.num_timesteps)
+        super()._on_training_start()
+
     def _on_step(self) -> bool:
         if (self.num_timesteps - self.last_time_trigger) >= self.n_steps:
             self.last_time_trigger = self.num_timesteps
